@@ -6,7 +6,7 @@
 (*  MCKbxDev_<name>               as-built design with that deviation NOT allowed (TLC must reject:    *)
 (*                                the deviation is real and the scope exercises it)                     *)
 EXTENDS KbxModel
-AllComps == {"cr", "ls", "wo", "ve", "cd", "mm", "gv", "oe", "bw", "do", "rt"}
+AllComps == {"cr", "ls", "wo", "ve", "cd", "mm", "gv", "oe", "bw", "do", "rt", "ck"}
 Only_cr == {"cr"}
 Only_ls == {"ls"}
 Only_wo == {"wo"}
@@ -18,6 +18,7 @@ Only_oe == {"oe"}
 Only_bw == {"bw"}
 Only_do == {"do"}
 Only_rt == {"rt"}
+Only_ck == {"ck"}
 Without_LastSymbolWins == AllDevs \ {"LastSymbolWins"}
 Without_NoSectionBound == AllDevs \ {"NoSectionBound"}
 Without_LinkerMapOrder == AllDevs \ {"LinkerMapOrder"}
